@@ -730,6 +730,7 @@ pub fn build_app(a: &AppSpec) -> App {
         .user_counting(UserCounting::ClientRegulatedByDate(a.days))
         .build();
     app.fingerprint = a.fingerprint.clone();
+    app.extra_fields = a.extras.iter().cloned().collect();
     app
 }
 
